@@ -23,6 +23,12 @@ class Budget(BaseException):
     pass
 
 
+class AssumeFail(BaseException):
+    def __init__(self, f, pclen):
+        self.f = f
+        self.pclen = pclen
+
+
 class Hooks:
     """transcendental functions: uninterpreted, axioms instantiated per use"""
 
@@ -133,7 +139,8 @@ class Path:
                 raise Abort()
             return
         if not b.v:
-            raise Abort()
+            # the witness violates the assumption: ask the solver for one that satisfies it (same prefix)
+            raise AssumeFail(b.f, len(self.pc))
         self.pc.append(b.f)
         self.known[b.f.uid] = True
 
@@ -307,6 +314,7 @@ class Explorer:
         self.undecided = []
         self.sample_pc = None
         self._cert_cache = {}
+        self._assume_tried = set()
 
     def _check(self, s, *extra):
         t = time.time()
@@ -332,6 +340,26 @@ class Explorer:
                 self.stats["paths"] += 1
             except Abort:
                 self.stats["aborted"] += 1
+            except AssumeFail as e:
+                core.CUR = None
+                key = (forced, e.f.uid)
+                if key in self._assume_tried:
+                    self.stats["aborted"] += 1
+                    continue
+                self._assume_tried.add(key)
+                s = z3.Solver()
+                s.set("rlimit", self.rlimit)
+                s.set("timeout", 20000)
+                for c in p.pc[:e.pclen]:
+                    s.add(to_z3(c))
+                w = self._flip(p, s, e.pclen, e.f)
+                if w == "unsat":
+                    self.stats["aborted"] += 1
+                elif w is None:
+                    self.undecided.append("assumption: " + core.show(e.f)[:200])
+                else:
+                    work.append((forced, w))
+                continue
             except Mismatch as e:
                 self.stats["mismatches"] += 1
                 self.undecided.append("mismatch: " + str(e)[:200])
